@@ -905,6 +905,9 @@ Section Rcv.
     assert (F2 : fok f2).
     { unfold f2. destruct (fr_state f1); try exact F1. apply fr_update_expired_ok. exact F1. }
     destruct (fr_state f2); cbn [fst snd]; try (apply store_ok; assumption).
+    2: { (* FError: the failed instance is forgotten (D41) *)
+         destruct R as [Rw (L & Fc & Fr)]. split; [exact Rw|]. split; [exact L|]. split; [exact Fc|].
+         cbn [rv_fdt_receivers]. apply Forall_filter; exact Fr. }
     destruct R as [Rw (L & Fc & Fr)].
     destruct (fr_inst f2) as [i|] eqn:Ei.
     - assert (Hi : inst_ok maxblk smax i = true) by (unfold fok in F2; rewrite Ei in F2; exact F2).
